@@ -1433,7 +1433,18 @@ func c19DirectCase(r *fw.Rec, idx int) {
 					if i%2 == 1 {
 						axis, lim = "y", h
 					}
-					r.Violation("model-mismatch", "checkAndNudgePoints:"+what+":"+which+"_"+band,
+					fb := "inside" // band of the failing coordinate (corner mode puts points in two bands)
+					switch {
+					case orig[i] < 0 && i%2 == 0:
+						fb = "left"
+					case orig[i] < 0:
+						fb = "top"
+					case orig[i] >= float64(lim) && i%2 == 0:
+						fb = "right"
+					case orig[i] >= float64(lim):
+						fb = "bottom"
+					}
+					r.Violation("model-mismatch", "checkAndNudgePoints:"+what+":"+which+"_"+fb,
 						fmt.Sprintf("checkAndNudgePoints on %dx%d (%s, %s band, %d of %d points): point %d %s was %v, now %v; demanded pixel index %d (valid indices 0..%d)", w, h, which, band, k, n, i/2, axis, orig[i], pts[i], want[i], lim-1), data())
 					return
 				}
